@@ -105,7 +105,7 @@ CLAIMED = {
     },
     "C18": {
         "technique": "Coq proof (capacity lemmas by induction over request lists; doubling of the first candidate of the sizing policy) + correspondence of request sizes",
-        "text": "C18_capacity_honoured / C18_capacity_exact / C18_with_capacity_size / C18_growth_doubles. " + ARENA_TEXT + "Partial: the logarithmic bound on request counts, the constant-factor bound on held memory and the Vec/String reservation clauses are not yet theorems.",
+        "text": "C18_capacity_honoured / C18_capacity_exact / C18_with_capacity_size / C18_growth_doubles / C18_source_chunk_size. " + ARENA_TEXT + "Spec predicate sp_growth_ok on every chunk obtained at the first attempt; the vec engine adds growth probes (reallocations of a growing Vec/String are at most log2(n)+2 for element sizes 1..4096; reserved capacity accepts n elements without moving). Partial: the logarithmic bound on request counts, the constant-factor bound on held memory and the Vec/String reservation clauses are not yet theorems.",
         "design_ref": "DESIGN.md §6 C18",
     },
     "C20": {
@@ -169,7 +169,7 @@ def main():
              "serves_properties": ["C14"],
              "kind_free_text": "Coq theory of well-formed UTF-8, char boundaries and the lossy decoder; differential execution against std::string::String, core::str::from_utf8, from_utf8_lossy, from_utf16"},
             {"name": "vec", "path": "coq/Vec*.v + harness/src/bin/vec_driver.rs + ocaml/vec_check.ml",
-             "serves_properties": ["C13", "C15", "C16", "C19"],
+             "serves_properties": ["C13", "C15", "C16", "C18", "C19"],
              "kind_free_text": "Coq model of Vec/RawVec with refinement theorems; differential execution against std::vec::Vec and the extracted model; drop ledger; zero-sized element section; C15/C16 also consume the string and box engines' reports"},
             {"name": "arena", "path": "coq/Arena*.v + harness/src/bin/arena_driver.rs + ocaml/arena_check.ml",
              "serves_properties": ["C01", "C02", "C03", "C04", "C06", "C07", "C08", "C09", "C10", "C11", "C12", "C18", "C20"],
